@@ -17,6 +17,7 @@ import Driver.C13
 import Driver.C17
 
 import Driver.C10
+import Driver.C16
 open Driver Relic.Model
 
 structure Conf where
@@ -35,6 +36,9 @@ structure Conf where
   ep2map : Option C13.Ext.Env := none
   ed : Option C17.Env := none
   fpx : Option C10.Env := none
+  fb : Option C16.FEnv := none
+  eb : Option C16.EEnv := none
+  ebCache : C16.Cache := []
 
 def parseCfg (toks : List String) : Conf :=
   toks.foldl (fun c t =>
@@ -70,7 +74,7 @@ def dispatch (c : Conf) (op : String) (args : List String) (got : String) : Opti
     | some e => C17.handle e c.w op args got
     | none => none) <|> (match c.fpx with
     | some e => C10.handle e op args got
-    | none => none)
+    | none => none) <|> (C16.handle c.fb c.eb c.ebCache c.w op args got)
 
 def processLine (c : Conf) (line : String) : String :=
   match line.splitOn " => " with
@@ -215,6 +219,37 @@ partial def loop (h : IO.FS.Stream) (out : IO.FS.Stream) (c : Conf) : IO Unit :=
         out.putStrLn (if got == "err" then "ok fpx_param-rejected" else "FAIL S model=[] spec=[parsable fpx_param] got=[" ++ got ++ "]")
         loop h out { c with fpx := none }
     | _ => out.putStrLn "skip"; loop h out c
+  else if line.startsWith "fb_param " then
+    -- binary field context: the irreducible polynomial as the running library reports it
+    match line.splitOn " => " with
+    | [_, got] =>
+      match C16.parseFEnv got with
+      | some e =>
+        let bad := C16.checkFParam e
+        out.putStrLn (if bad.isEmpty then "ok fb_param" else "FAIL S model=[] spec=[" ++ String.intercalate ";" bad ++ "] got=[" ++ got ++ "]")
+        loop h out { c with fb := some e, eb := none }
+      | none =>
+        out.putStrLn (if got == "err" then "ok fb_param-rejected" else "FAIL S model=[] spec=[parsable fb_param] got=[" ++ got ++ "]")
+        loop h out { c with fb := none, eb := none }
+    | _ => out.putStrLn "skip"; loop h out c
+  else if line.startsWith "eb_param " then
+    match line.splitOn " => " with
+    | [_, got] =>
+      match C16.parseEEnv got with
+      | some e =>
+        let bad := C16.checkEParam e ++ C16.checkFParam { F := e.c.F, K := e.fc.K, kv := e.kv }
+        out.putStrLn (if bad.isEmpty then "ok eb_param" else "FAIL S model=[] spec=[" ++ String.intercalate ";" bad ++ "] got=[" ++ got ++ "]")
+        loop h out { c with eb := some e, ebCache := [], fb := some { F := e.c.F, K := e.fc.K, kv := e.kv } }
+      | none =>
+        out.putStrLn (if got == "err" then "ok eb_param-rejected" else "FAIL S model=[] spec=[parsable eb_param] got=[" ++ got ++ "]")
+        loop h out { c with eb := none }
+    | _ => out.putStrLn "skip"; loop h out c
+  else if line.startsWith "ebm " || line.startsWith "ebs " then
+    -- scalar multiplications of C16 share the doubling chains of their base points
+    let toks := (((line.splitOn " => ").headD "").splitOn " ").filter (· ≠ "")
+    let c := { c with ebCache := C16.updCache c.eb c.ebCache (toks.headD "") (toks.drop 1) }
+    out.putStrLn (processLine c line)
+    loop h out c
   else if line.startsWith "fp_param " then
     -- the running library reports the active field; the derived constants are checked here
     match line.splitOn " => " with
